@@ -94,12 +94,16 @@ func Abs(ts TypeSpec, omit bool, v reflect.Value) AbsVal {
 			base = *base.Elem
 			depth++
 		}
-		if base.K == "slice" || base.K == "map" {
+		collKind := map[string]string{"slice": "array", "map": "map"}[base.K]
+		if ck, ok := Custom[base.K]; ok && (ck.Schema.Kind == "array" || ck.Schema.Kind == "map") {
+			collKind = ck.Schema.Kind // a named slice / map type without a nullable registered schema
+		}
+		if collKind != "" {
 			// a pointer to a slice or map stays a plain array / map: a nil
 			// pointer can only denote the empty collection
 			var a AbsVal
 			if nilAt >= 0 {
-				a = AbsVal{K: map[string]string{"slice": "array", "map": "map"}[base.K]}
+				a = AbsVal{K: collKind}
 			} else {
 				a = Abs(base, false, cur)
 			}
